@@ -50,6 +50,7 @@ ASSUMPTIONS = [
     "revert is run with backups=False; commit with allow_pointless=True, explicit revision ids (bzr), timestamps and committer",
     "unknowns()/extras() follow each implementation's documented shape: bzr reports an unversioned directory but not its contents, git reports unversioned non-directories recursively",
     "states and operations that hit defects already reported (checks/treesim.py GUARDS: " + ", ".join(sorted(T.GUARDS)) + ") are left out while the guard is on; a guard is lifted in a share of the runs once known_findings.json has an open entry [property, 'known-defect', guard], and failures inside such a territory carry that signature",
+    "index-fault phase (git, ~1/4 of the git runs): a command holding the tree write lock changes the index (add / smart_add / remove --keep: nothing is flushed before the unlock) and the k-th write (k in 1..4) of the index at the final unlock stores only a fraction of its data and then fails with ENOSPC or the process dies (every later operation of that command on the index files has no effect, a stale index.lock stays behind and is removed by the 'user' after the judgement); a fresh opener must be able to read the tree and see the state before the lock or the state after the operations; in-place index writes that HEAD performs in the middle of a lock (rename_one, unversion) are not faulted",
     "two-writer phase: the writers' operations are pairwise independent (no path of one at, below or above a path of another), so every serial order gives the same tree and the oracle is 'model after exactly the acknowledged operations'; a writer that meets LockContention/LockFailed drops its tree object and re-opens (a new command); both writers share one address space",
     "determinism pins: storesim.install_pins (index/pack objects ordered by name) and treesim.install_order_pin (results of dirstate iter_changes with >= 2 search roots sorted by path: the Rust code walks the roots in per-thread hash order, which would decide the bytes and name of the pack written by a partial commit)",
     "runs execute in-process (ISOLATION=thread): each run builds tree, model and Sim from scratch; random parts of lock/upload names are masked in the event log",
@@ -65,6 +66,7 @@ ISOLATION = "thread"
 P_UNGUARDED = float(__import__("os").environ.get("VERIF_UNGUARDED", "0") or 0)
 P_LIFT = 0.2
 P_WRITERS = 0.3  # share of runs that end with a two-writer phase
+P_INDEX_FAULT = 0.35  # share of (git) runs that end with a fault inside the final index write
 
 
 _warmed = []
@@ -177,7 +179,33 @@ def generate(rng, tier, compare=False):
     n = rng.randint(5, 25)
     ops = T.gen_ops(rng, model, n, weights, names)
     plan = {"flavour": flavour, "names": names, "weights": weights, "ops": ops}
-    if rng.random() < P_WRITERS:
+    phase = rng.random()
+    if phase >= P_WRITERS and flavour == "git" and phase < P_WRITERS + P_INDEX_FAULT:
+        # fault phase at the end of the run: an I/O error or the death of the process inside
+        # the write of the index at the final unlock
+        for _ in range(rng.randint(1, 2)):
+            free = [n for n in "abcde" if model.can_create(n)]
+            if free:
+                op = {"o": "write", "p": rng.choice(free), "n": 450 + len(ops)}
+                model.apply(op)
+                ops.append(op)
+        cands = [{"o": "add", "p": p, "id": "x"} for p in sorted(model.disk) if not model.is_versioned(p) and model.dkind(p) != T.DIR]
+        cands += [{"o": "remove", "p": p, "keep": True, "force": False} for p in sorted(model.inv)]
+        cands += [{"o": "smart_add", "p": p, "n": 460} for p in sorted(model.disk) if not model.is_versioned(p)]
+        rng.shuffle(cands)
+        m2 = model.copy()
+        fops = []
+        for op in cands:
+            if len(fops) >= rng.randint(1, 2):
+                break
+            before = dict(m2.inv)
+            if m2.classify(op) == "ok":
+                m2.apply(op)
+                if m2.inv != before:
+                    fops.append(op)
+        if fops:
+            plan["fault"] = {"ops": fops, "mode": rng.choice(["error", "crash"]), "at": rng.randint(1, 4), "frac": rng.choice([0.0, 0.5, 0.9])}
+    if phase < P_WRITERS:
         # two-writer phase at the end of the run; a few fresh files give it something to add
         for _ in range(rng.randint(0, 2)):
             free = [n for n in "abcde" if model.can_create(n)]
@@ -233,12 +261,27 @@ def safe_observe(sim, tree, fl, op):
         T.fail(sim, "C09", "observe_raised", [fl, type(e).__name__], "after %s: reading the tree raised %r\n%s" % (json.dumps(op), e, tb))
 
 
-def check_state(sim, tree, model, op, obs=None):
+class _Mismatch(Exception):
+    pass
+
+
+def state_problem(sim, tree, model, op, obs):
+    """(tag, detail) of the first difference between the tree and `model`, or None."""
+    try:
+        check_state(sim, tree, model, op, obs, soft=True)
+    except _Mismatch as e:
+        return e.args
+    return None
+
+
+def check_state(sim, tree, model, op, obs=None, soft=False):
     """Compare the real tree with the model; returns the observation."""
     fl = model.flavour
     kind = op["o"] if op else "init"
 
     def fail(tag, detail):
+        if soft:
+            raise _Mismatch(tag, detail)
         T.fail(sim, "C09", tag, [fl, kind], "after %s: %s" % (json.dumps(op), detail))
 
     disk = T.disk_snapshot(tree._sim_root, fl)
@@ -305,6 +348,71 @@ def refused_ok(exc):
         return not isinstance(exc, errors.InternalBzrError)
     mod = type(exc).__module__.split(".")[0]
     return mod in ("dromedary", "bzrformats", "dulwich") or type(exc).__name__ in ("NoSuchFile", "PathsNotVersionedError", "NotVersionedError")
+
+
+def run_index_fault(sim, tree, model, plan):
+    """git: a command takes the tree write lock, changes the index (add / smart_add /
+    remove --keep: nothing is flushed before the unlock) and is hit by an I/O error, or dies,
+    inside the write of the index at the final unlock.  Judged by a fresh opener: the tree
+    must be readable and show the state before the lock or the state after the operations."""
+    import os
+
+    fl, root, ft = model.flavour, tree._sim_root, plan["fault"]
+    T.install_index_seam()
+    post = model.copy()
+    ops = []
+    for op in ft["ops"]:
+        if op.get("o") in ("add", "smart_add", "remove") and (op["o"] != "remove" or op.get("keep")) and post.classify(op) == "ok":
+            post.apply(op)
+            ops.append(op)
+    if not ops or post.inv == model.inv:
+        sim.event("index-fault", "skipped")
+        return tree
+    del tree
+    sim.index_fault = {"mode": ft["mode"], "at": int(ft["at"]), "frac": float(ft.get("frac", 0.5)), "active": False}
+    t = T.open_tree(root, fl)
+    t.lock_tree_write()
+    try:
+        for op in ops:
+            try:
+                T.apply_op(t, model, op)
+            except Exception as e:  # noqa: BLE001
+                T.fail(sim, "C09", "op_raised", [fl, op["o"], type(e).__name__], "%s raised %r (before any fault)" % (json.dumps(op), e))
+    finally:
+        sim.index_fault["active"] = True  # only the final write of the unlock
+        try:
+            t.unlock()
+        except BaseException as e:  # noqa: B036 - the error or the death of the command
+            sim.event("index-fault", "unlock", type(e).__name__)
+        fired = bool(sim.index_fault.get("fired"))
+        sim.index_fault = None
+    del t
+    sim.event("index-fault", ft["mode"], ft["at"], "fired" if fired else "not reached")
+    sim.probe("index_fault_" + (ft["mode"] if fired else "not_reached"))
+    marker = {"o": "index-fault", "mode": ft["mode"], "at": ft["at"], "fired": fired, "ops": [json.dumps(o, sort_keys=True) for o in ops]}
+    fresh = T.open_tree(root, fl)
+    try:
+        obs = T.observe(fresh, fl)
+    except Exception as e:  # noqa: BLE001
+        T.fail(sim, "C09", "fault_unreadable", [fl, ft["mode"]], "after %s: a fresh opener cannot read the tree: %r" % (json.dumps(marker), e))
+    p_post = state_problem(sim, fresh, post, marker, obs)
+    p_pre = state_problem(sim, fresh, model, marker, obs) if p_post else None
+    if p_post and p_pre:
+        T.fail(sim, "C09", "fault_state", [fl, ft["mode"]], "after %s: the tree is neither in the state before the lock (%s: %s) nor in the state after the operations (%s: %s)" % (json.dumps(marker), p_pre[0], p_pre[1], p_post[0], p_post[1]))
+    if not fired and p_post:
+        T.fail(sim, "C09", p_post[0], [fl, "index-fault"], "no fault fired, but after %s: %s" % (json.dumps(marker), p_post[1]))
+    if not p_post:
+        for op in ops:
+            model.apply(op)
+        sim.probe("index_fault_post_state")
+    else:
+        sim.probe("index_fault_pre_state")
+    # what a user does about the lock file a killed command leaves behind
+    stale = os.path.join(root, ".git", "index.lock")
+    if os.path.exists(stale):
+        os.unlink(stale)
+    sim.state_seen(model.digest())
+    return fresh
 
 
 def run_writers(sim, tree, model, plan):
@@ -451,6 +559,8 @@ def execute(sim, plan, extra=None):
         sim.state_seen(model.digest())
     if plan.get("actors"):
         tree = run_writers(sim, tree, model, plan)
+    elif plan.get("fault") and model.flavour == "git":
+        tree = run_index_fault(sim, tree, model, plan)
     sim.nontrivial = done >= 3
     if sim.notes.get("prop") is None:
         sim.notes.pop("territory", None)
